@@ -294,6 +294,9 @@ C10_Fail(c, r, v) ==
           THEN {"HARNESS_CertificateDisagreesWithBruteForce"} ELSE {})
          \cup If(DrawnTotal(c, r, v) = OptTotal(c, r), "Optimal")
          \cup If(\A m \in v.roots : ContigComp(c, r, v, m), "Contiguous")
+         \* layer 3 (exit report of hook H3; a DRIFT diagnostic, clause prefix L3_): the pivot loop ends because no tree edge
+         \* has a negative cut value, or because the budget is used up - never with a negative edge left and budget to spare
+         \cup If(r.stuck = 0, "L3_PivotLoopEndsOnOptimalityOrBudget")
 C10_NonTrivial(c, r, v) == r.pivots >= 1
 
 -----------------------------------------------------------------------------
